@@ -23,7 +23,12 @@ RULE = ("value/uncertainty pairs built from decimal mantissas of 1-12 digits tim
         "within 1 unit of the last place); cases whose model output has more than 12 digits are "
         "outside the statement's domain and counted as skipped; non-trivial = rounding carries into "
         "the next decade, a zero, or a negative-order scientific case; distinct by hash of "
-        "(v, e, configuration)")
+        "(v, e, configuration). HISTORIES: sessions of 2-5 prints about one pair (and its neighbours) "
+        "under configurations differing in exactly the mode / style / number of figures / nothing, "
+        "reached by reset+setters, setters only or the settings object, printed through str, repr, an "
+        "array, with name and unit, through one object kept over the session, and after re-assigning "
+        "value and uncertainty of a printed object; every print judged. Every failure is re-run in a "
+        "new interpreter (alone, else after its minimised history, which the replay file carries)")
 ASSUMPTIONS = ["inputs are finite floats with magnitudes in [1e-12, 1e12], uncertainty >= 0, at most "
                "12 printed digits, n in 1..6 (the statement's domain)",
                "the model is exact over the rationals; binary rounding inside x / back_off, 10 ** k "
@@ -66,7 +71,7 @@ def parse(s):
 
 
 ROUTES = ["reset", "keep", "settings-object"]
-HOWS_HISTORY = ["str", "str", "str", "repr", "array", "named", "edited"]
+HOWS_HISTORY = ["str", "str", "kept", "kept", "repr", "array", "named", "edited"]
 
 
 def configure(q, style, mode, n, route="reset"):
@@ -97,10 +102,17 @@ def configure(q, style, mode, n, route="reset"):
         q.get_settings().sig_fig_value = n   # automatic mode with n figures
 
 
-def show(q, v, e, how="str", frm=None):
+def show(q, v, e, how="str", frm=None, kept=None):
     try:
         if how == "str":
             return str(q.Measurement(v, e))
+        if how == "kept":
+            # ONE object per pair for the whole session: printed again under the next configuration
+            if kept is None:
+                kept = {}
+            if (v, e) not in kept:
+                kept[(v, e)] = q.Measurement(v, e)
+            return str(kept[(v, e)])
         if how == "repr":
             r = repr(q.Measurement(v, e))
             m = re.fullmatch(r"\w+\((.*)\)", r)
@@ -128,18 +140,25 @@ def show(q, v, e, how="str", frm=None):
         return "EXC {}: {}".format(type(ex).__name__, ex)
 
 
+FIRST_STEP = None
+
+
 def session(q, steps):
     """print the steps one after the other in THIS interpreter (printing must not depend on what
     was printed or configured before, so the order must not matter); returns the texts"""
+    global FIRST_STEP
     outs = []
     last = None
+    kept = {}
+    if FIRST_STEP is None and steps:
+        FIRST_STEP = step_of(steps[0])        # the very first print of this interpreter
     for c in steps:
         route = c.get("route", "reset")
         key = (c["style"], c["mode"], c["n"])
         if key != last or route != "reset":
             configure(q, *key, route=route)
             last = key
-        outs.append(show(q, c["v"], c["e"], c.get("how", "str"), c.get("from")))
+        outs.append(show(q, c["v"], c["e"], c.get("how", "str"), c.get("from"), kept))
     q.reset_default_configuration()
     return outs
 
@@ -596,6 +615,8 @@ def make_standalone(ctx, fails, batch, dist, ref=False, budget=6):
         hist = [step_of(h) for h in inp.get("history") or []]
         if not hist and idx is not None:
             hist = [step_of(b) for b in batch[:idx] if b["v"] == case["v"] and b["e"] == case["e"]][-32:]
+        if FIRST_STEP is not None and FIRST_STEP not in hist and FIRST_STEP != case:
+            hist = [FIRST_STEP] + hist        # state fixed by the first print of the interpreter
         best = None
         try:
             if hist and fresh_verdicts(ctx, [hist + [case]], [kind], ref)[0]:
@@ -651,22 +672,28 @@ def correspond(ctx, ref=False, boost=1):
         d2.update(d)
         samples += sm
     dist.update(d2)
-    seen, uniq = set(), []
-
     def size(f):
         inp = f.get("input")
         if not isinstance(inp, dict):
             return 0
         return len(str(inp["v"])) + len(str(inp["e"])) + 40 * len(inp.get("history") or [])
+    # per signature two representatives: the smallest case printed in the batch and the smallest step
+    # of a history scenario (it knows what was printed before it)
+    groups = collections.OrderedDict()
     for f in sorted(failures, key=size):
-        if f["signature"] not in seen:
-            seen.add(f["signature"])
-            uniq.append(f)
-    # every reported failure is re-run in a new interpreter (at most 40, violations first)
-    uniq.sort(key=lambda f: 0 if f.get("kind") == "violation" else 1)
-    make_standalone(ctx, uniq[:40], cases, dist, ref=ref)
-    for f in uniq[40:]:
+        g = groups.setdefault(f["signature"], {})
+        k = "hist" if isinstance(f.get("input"), dict) and f["input"].get("history") else "plain"
+        g.setdefault(k, f)
+    reps = [f for g in groups.values() for f in g.values()]
+    # every reported failure is re-run in a new interpreter (at most 40; violations first, those with a
+    # recorded history first: their minimisation is short)
+    reps.sort(key=lambda f: (0 if f.get("kind") == "violation" else 1,
+                             0 if isinstance(f.get("input"), dict) and f["input"].get("history") else 1))
+    make_standalone(ctx, reps[:40], cases, dist, ref=ref)
+    for f in reps[40:]:
         f["standalone"] = "unverified"
+    rank = {"alone": 0, "with-history": 1, "not-reproduced": 2, "unverified": 3}
+    uniq = [min(g.values(), key=lambda f: rank.get(f.get("standalone"), 4)) for g in groups.values()]
     for f in uniq:
         if isinstance(f.get("input"), dict):
             f["input"].pop("batch_index", None)
